@@ -378,6 +378,40 @@ def r8_env_var_name(chk, prog, rule='R8'):
     return len(writes)
 
 
+def r9_file_line_unmodified(chk, prog, rule='R9'):
+    """the words of an argument file are the words of its lines: the line that readArgumentFile() hands to the splitter
+    is the line as it was read - between getline() and make_arg_array() nothing erases, trims, replaces or appends
+    characters (an escaped trailing blank belongs to the last word, exactly as on argv)"""
+    f = prog.one('celma::prog_args::Handler', 'readArgumentFile')
+    gl = [c for c in f.calls() if callee_is(c, 'getline')]
+    mk = [c for c in f.calls() if callee_is(c, 'make_arg_array')]
+    chk.require(gl and mk, 'readArgumentFile: getline() / make_arg_array() not found')
+    line = None
+    for a in call_args(gl[0]):
+        a0 = strip_all_casts(a)
+        if a0.get('k') == 'DeclRefExpr' and 'basic_string' in (a0.get('t') or a0['ref'].get('dt') or ''):
+            line = a0['ref'].get('name')
+    chk.require(line is not None, 'readArgumentFile: line variable not found')
+    chk.check(any(mentions_var(a, line) for a in call_args(mk[0])), rule, f.name, 'the line that was read is what is '
+              'split into words', f.loc(mk[0]))
+    MUT = ('erase', 'resize', 'pop_back', 'assign', 'replace', 'append', 'insert', 'operator+=', 'operator=', 'clear',
+           'push_back', 'swap')
+    bad = []
+    for c in f.calls():
+        nm = (c.get('callee') or '').split('::')[-1]
+        if c.get('k') == 'CXXMemberCallExpr' and nm in MUT and mentions_var(object_of(c), line):
+            bad.append(nm)
+        elif c.get('k') == 'CXXOperatorCallExpr' and nm in MUT and call_args(c) and \
+                strip_all_casts(call_args(c)[0]).get('ref', {}).get('name') == line:
+            bad.append(nm)
+        elif c.get('k') == 'CallExpr' and nm not in ('getline',) and any(
+                strip_all_casts(a).get('ref', {}).get('name') == line and pk in ('ref', 'ptr')
+                for a, pk in zip(call_args(c), c.get('pk') or [])):
+            bad.append(nm)
+    chk.check(not bad, rule, f.name, 'the line is not modified between reading and splitting', f.loc(),
+              'calls on the line: %s' % sorted(set(bad)))
+
+
 def run(chk):
     prog, units = rules.prog_args_program()
     chk.units = units
@@ -429,6 +463,8 @@ def run(chk):
     _c01.r12_store_independent_of_destination(chk, prog, rule='R7')
     chk.rule('R8', 'the environment variable that is read is the one the application named', 3)
     r8_env_var_name(chk, prog)
+    chk.rule('R9', 'the lines of an argument file reach the splitter unmodified', 2)
+    r9_file_line_unmodified(chk, prog)
     chk.rule('R6', 'the read mode reaches the sub-group handler that evaluates words of a file / environment source', 1)
     pa = prog.one('celma::prog_args::Handler', 'processArg')
     pcfg = pa.cfg
